@@ -22,7 +22,7 @@ ASSUMPTIONS = ["streams are re-created with the same seed in construct_model (no
                "the second replication uses the same model object and the same replication settings"]
 
 HIST = ["fresh", "step", "pause", "bounded", "ended", "fault", "cleanup", "init_while_running", "ended_twice", "end_replication",
-        "init_while_starting"]
+        "init_while_starting", "touched"]
 
 
 def plan(tier):
@@ -131,6 +131,27 @@ def run_case(case, ctx):
                 if first["trace"] != want["trace"] or first["stats"] != want["stats"]:
                     ctx.viol("refused-initialize-disturbed-the-run", {**where, "got": str(first["trace"])[:400], "fresh": str(want["trace"])[:400]})
                     return
+        elif hist == "touched":
+            # initialised, never started, but used from outside: an extra event scheduled, streams drawn from, statistics fed
+            try:
+                a.sim.schedule_event_rel(tnum_lit(prog, 1), a.model, "h", 5, tag="zz_extra")
+            except Exception:
+                pass
+            for st in a.streams.values():
+                st.next_float(); st.next_int(0, 9)
+            for key, st in a.stats.items():
+                try:
+                    kind = next(sp["kind"] for sp in prog["stats"] if sp["key"] == key)
+                    if kind == "counter":
+                        st.register(3)
+                    elif kind == "wtally":
+                        st.register(1.0, 2.0)
+                    elif kind == "persistent":
+                        st.register(float(a.sim.simulator_time), 4.0)
+                    else:
+                        st.register(2.5)
+                except Exception:
+                    pass
         elif hist == "cleanup":
             a.cmd("step")
             a.cmd("cleanup")
@@ -172,9 +193,13 @@ def run_case(case, ctx):
             a.sim.set_error_strategy(ErrorStrategy.WARN_AND_PAUSE)
         _swap_program(a, prog)
         first_h, first_n = len(a.hlog), len(a.nlog)
+        n_inits = a.inits
         out = a.cmd("initialize")
         if out != "ok":
             ctx.viol(f"re-initialize-raises:{out}", {**where, "state_before": hist})
+            return
+        if a.inits != n_inits + 1:
+            ctx.viol("model-not-rebuilt-through-construct_model", {**where, "construct_model_calls": a.inits - n_inits})
             return
         snap = a.snapshot()
         fresh2 = Harness(prog, "fresh2")
@@ -213,6 +238,11 @@ def run_case(case, ctx):
     finally:
         fresh.cleanup()
         a.cleanup()
+
+
+def tnum_lit(prog, v):
+    from vlib.simharness import time_value
+    return time_value(prog, v) if prog["clock"] != "int" else int(v)
 
 
 def _history_program(prog, hist):
